@@ -491,6 +491,13 @@ func (b *stepBuilder) buildStep(
 		}
 	}
 
+	// A step must have something to execute: a command, an executor or a
+	// sub workflow (e.g. "command: []" or "executor: {}" has none).
+	if step.Command == "" && step.ExecutorConfig.Type == "" &&
+		step.SubWorkflow == nil {
+		return nil, errStepCommandOrCallRequired
+	}
+
 	return step, nil
 }
 
